@@ -83,6 +83,10 @@ def quick_corpus():
     c.append(tok("lsn", s=-1, fs=1, tag="lsn-extrapolate", eq_extra={"pn_max": 1.0}, extrapolate_profiles=True, psi_sol=ps, psi_sol_inner=ps))
     # the whole machine moved up so that max(Z) > max(R): catches R/Z mix-ups that a domain with |Z|<R hides
     c.append(tok("lsn", s=-1, fs=-1, tag="lsn-zoff", eq_extra={"zoff": 1.9}, wall={"kind": "slant", "zoff": 1.9}, guards=2))
+    # the same kind of grid built by worker processes (number_of_processors=3): the refined contours
+    # come back from the workers as copies, so every use of ParallelMap's result is exercised
+    c.append(dict(tok("cdn", s=1, fs=-1, orth=False, wall="slant2", tag="cdn-nonorth-np3"), np=3))
+    c.append(dict(tok("usn", s=-1, fs=1, tag="usn-np3", guards=2), np=3))
     # a wall that is not star-shaped as seen from the centre of the psi box (which sits high, at
     # Z=0.3): cells inside the wall whose line of sight to that centre crosses the outboard baffle twice
     c.append(tok("lsn", s=1, fs=1, tag="lsn-baffle", wall={"kind": "baffle", "tip": 1.64, "zb": -0.40}, eq_extra={"Zlim": [-0.7, 1.3], "nZ": 92}, psinorm_sol=1.1, ny_outer_divertor=5))
